@@ -102,6 +102,49 @@ Definition value_exact (tr : list ev) : Prop :=
 (* no callback ever receives an (err, msg) pair outside the six shapes of [cls] *)
 Definition values_wellformed (tr : list ev) : Prop := forall t, ~ In (ECb t ROther) tr.
 
+(* RESTARTS.  Request ids in a trace are KEYS (incarnation * (M+1) + id, Model.v).  A response
+   is processed by the LIVE incarnation - as many restarts as there were so far -: the key it
+   addresses is its bare id in that incarnation (a negative code when no request can carry
+   the id).  Together with [matching] and [drops_ok]: after a restart a response can complete
+   only a request the NEW incarnation issued; for the requests of earlier incarnations it is a
+   response for an unknown request (the clauses above then leave them the timeout only). *)
+Fixpoint n_crash (tr : list ev) : Z :=
+  match tr with [] => 0 | ECrash :: r => 1 + n_crash r | _ :: r => n_crash r end.
+
+Definition resp_live (M : Z) (tr : list ev) : Prop :=
+  forall pre id k post, tr = pre ++ EResp id k :: post -> exists w, id = rkey M (n_crash pre) w.
+
+(* THAT VERY REQUEST.  The peer answers a request it holds; the response carries that request's
+   id, and the ghost of the response names the request (its tag).  A callback completed with a
+   reply (or remote error) was completed by a response whose ghost - when it names a request at
+   all - is the callback's OWN request. *)
+Definition answers_own (tr : list ev) : Prop :=
+  forall p id k t c post, tr = p ++ EResp id k :: ECb t c :: post ->
+    reply_class c = true -> 0 <= ghost_of k -> ghost_of k = t.
+
+Fixpoint own_b (tr : list ev) : bool :=
+  match tr with
+  | [] => true
+  | EResp _ k :: r =>
+      match r with
+      | ECb t c :: _ => negb (reply_class c) || (ghost_of k <? 0) || (ghost_of k =? t)
+      | _ => true
+      end && own_b r
+  | _ :: r => own_b r
+  end.
+
+(* the ghosts of a trace are truthful: the request a response's ghost names was issued, and under
+   the request id the response carries (the peer copies ReqId from the request it holds) *)
+Definition ghosts_truthful (M : Z) (tr : list ev) : Prop :=
+  forall pre id k post, tr = pre ++ EResp id k :: post -> 0 <= ghost_of k ->
+    exists key n, In (EIssue (ghost_of k) key n) pre /\ wid M key = wid M id.
+
+(* no request id was used for two requests (no restart that renumbers, no wrap of the allocator,
+   no test set-up that moves it back) *)
+Definition fresh_ids (M : Z) (tr : list ev) : Prop :=
+  forall t1 k1 n1 t2 k2 n2, In (EIssue t1 k1 n1) tr -> In (EIssue t2 k2 n2) tr ->
+    wid M k1 = wid M k2 -> t1 = t2.
+
 (* ---------------------------------------------------------------- executable acceptor *)
 
 Definition ty_eqb (a b : ty) : bool :=
@@ -129,12 +172,15 @@ Definition pmsg_eqb (a b : pmsg) : bool :=
   | _, _ => false
   end.
 
-Definition kind_eqb (a b : kind) : bool :=
+Definition ans_eqb (a b : ans) : bool :=
   match a, b with
   | KAns c e m, KAns d f n => (c =? d) && (e =? f) && pmsg_eqb m n
   | KRaw v, KRaw w => wire_eqb v w
   | _, _ => false
   end.
+
+(* the ghost is no observable of the service: responses are compared by what is on the wire *)
+Definition kind_eqb (a b : kind) : bool := ans_eqb (ans_of a) (ans_of b).
 
 Definition val_eqb (a b : val) : bool :=
   match a, b with
